@@ -372,7 +372,14 @@ func (cfg *config) parseAudience(line string) error {
 			}
 			a.auditor.activeCond = exp
 		}
-		a.auditor.expectExpr = tg.auditor.expectExpr
+		// Check the predicate again on behalf of this member (rather than
+		// copying the compiled expression), so that the member is
+		// registered as a watcher of the variables it depends on.
+		exp, err := a.checkExpr(cfg, tg.auditor.expectExpr.src)
+		if err != nil {
+			return err
+		}
+		a.auditor.expectExpr = exp
 		a.auditor.expectFsm = tg.auditor.expectFsm
 	} else if p := pw(activeRe); p.m(line) {
 		aWhen := p.get("expr")
